@@ -248,6 +248,7 @@ def worker_main(argv):
   t0 = time.time()
   idxs = range(w, nruns, nw)
   gc_every = getattr(mod, 'GC_EVERY', 0)
+  clear_every = getattr(mod, 'CLEAR_JAX_CACHES_EVERY', 0)
   for n, i in enumerate(idxs):
     if time.time() - t0 > deadline_s:
       agg['deadline_hit'] = True
@@ -260,6 +261,13 @@ def worker_main(argv):
     plan['property'] = prop
     if gc_every and n and n % gc_every == 0:
       # engines that build classes per run (cyclic garbage by construction) collect on a fixed, run-count-based schedule
+      gc.collect()
+    if clear_every and n and n % clear_every == 0:
+      # compiled executables of dead lifted classes stay in jax's caches; a worker that keeps them all runs out of
+      # memory mappings (vm.max_map_count) after a few hundred histories
+      import jax
+
+      jax.clear_caches()
       gc.collect()
     try:
       res = mod.execute(plan)
